@@ -12,14 +12,13 @@ child_handler, with the thread pool, the timer thread, Event and clock replaced 
 """
 from __future__ import annotations
 
-from vk import h
+from vk import colower, h, sched
 from harness import batcher  # noqa: F401  stub Event/queue classes
 from harness.common import FUTURE_DT, NOW, OID, PID, ST, FakeState
 
 import aws_durable_execution_sdk_python.concurrency.executor as E
 import aws_durable_execution_sdk_python.concurrency.models as M
 from aws_durable_execution_sdk_python.exceptions import SuspendExecution, TimedSuspendExecution
-from vk import colower, sched
 
 ASSUMPTIONS_EXEC = [
     "thread pool / futures modelled per the concurrent.futures contract (see harness/exec_world.py docstring); branch bodies run atomically when they finish; "
@@ -32,7 +31,7 @@ ASSUMPTIONS_EXEC = [
 ]
 
 
-class Deadlock(BaseException):
+class Deadlock(sched.Deadlock):
     pass
 
 
@@ -174,12 +173,13 @@ class World:
 
     current = None
 
-    def __init__(self, choices=(), never=(), max_actions=40, preempt=()):
+    def __init__(self, choices=(), never=(), max_actions=40, preempt=(), late=()):
         self.choices = list(choices)   # solver-chosen action whenever the current activity has ended and several are enabled
         self.ci = 0
         self.preempt = list(preempt)   # [(action number, index into enabled)]: solver-chosen preemptions of the running callback
         self.cur_cb = None
         self.never = set(never)        # branch indices that never finish
+        self.late = set(late)          # branch indices that finish only when nothing else can happen (long-running user code)
         self.actions = 0
         self.max_actions = max_actions
         self.timer = None              # TimerScheduler instance
@@ -201,10 +201,15 @@ class World:
         if pool is not None:
             for f in pool.running:
                 idx = getattr(f.args[1], "index", None) if len(f.args) > 1 else None
-                if idx not in self.never:
+                if idx not in self.never and idx not in self.late:
                     acts.append(("finish", f))
         if self.timer is not None and self.timer._pending_resumes and not self.timer._shutdown.is_set():
             acts.append(("timer", None))
+        if not acts and pool is not None:
+            for f in pool.running:
+                idx = getattr(f.args[1], "index", None) if len(f.args) > 1 else None
+                if idx in self.late:
+                    acts.append(("finish", f))
         return acts
 
     def block_on(self, ev):
